@@ -65,6 +65,13 @@ pub fn run(cases: &[Vec<String>]) {
                 let u = vec![c[0].clone(), "c15".into(), c[3].clone(), c[4].clone()];
                 run_async_case(1, move || crate::c15::run_case(u))
             }
+            "cli" => {
+                // id c16 cli <kind> <reliable> <arrivals> <horizon> <extra> <probes> ...: a client transaction through the C05 harness with
+                // replayed final responses; the table-size probes (N@t:n) are what is looked at
+                let mut u = vec![c[0].clone(), "c05".into()];
+                u.extend(c[3..].iter().cloned());
+                run_async_case(7, move || crate::tsx_client::run_case(u, false))
+            }
             "stale" => {
                 // id c16 stale <setup> <events>: the dialog-layer harness of C10 (events K: register_usage with keys of dialogs that
                 // do not exist); its last token B=<dialogs>/<parked> is what is looked at
